@@ -181,7 +181,9 @@ fn maps(rep: &mut Report) {
 pub fn run(seed: u64, thorough: bool, cases: Option<u64>) -> Report {
     let mut rep = Report::default();
     quotient(&mut rep);
-    maps(&mut rep);
+    if !crate::util::tiny() {
+        maps(&mut rep);
+    }
     let n = cases.unwrap_or(if thorough { 200_000 } else { 20_000 });
     rep.merge(par_cases(n, |i, r| data_independence(seed, i, r)));
     rep
